@@ -129,7 +129,6 @@ def orderSensitive (cl : Cluster) (pk : Model.Match.Picker) : Bool :=
 def encodeOutcome (r : Request) (free : Bool) : Outcome → Json
   | .badRequest => J.obj [("kind", Json.str "badRequest")]
   | .notProxied => J.obj [("kind", Json.str "notProxied")]
-  | .plainError c => J.obj [("kind", Json.str "plain"), ("code", J.nat c)]
   | .proxyError => J.obj [("kind", Json.str "proxyError")]
   | .panic e => J.obj [("kind", Json.str "panic"), ("msg", Json.str e)]
   | .terminated a => J.obj [("kind", Json.str "terminated"), ("code", J.nat a.httpCode), ("retryAfter", optNat a.retryAfter),
